@@ -9,21 +9,21 @@ open Db
 structure Tied (s : State) (hashOf : V1.CertificateContent → Der.Bytes) (now : Int) (st0 : Conv.St) (idx : String → Nat) (a : String) : Prop where
   ex : ∃ cfg e c, validateAndMerge s a = .ok cfg ∧ s.find a = some e ∧ cfg.alias_ = a ∧ st0.cfg (idx a) = some c ∧
         (needsUpdate s defaultStrategy e cfg (hashOf cfg) now = true ↔ Conv.localReason st0 (idx a) c) ∧
-        (∀ upd : List String, upd.contains cfg.issuer = true ↔ Conv.parentPlanned c (upd.map idx))
+        (∀ upd : List String, (∀ x ∈ upd, (s.find x).isSome = true) → (upd.contains cfg.issuer = true ↔ Conv.parentPlanned c (upd.map idx)))
 
 /-- **whole-plan refinement**: if every alias of the queue is tied to its index, the aliases the detailed model plans
     under the default strategy (the recursion `C11.planSpec`, which `C11_plan_eq_spec` shows `PlanBulkUpdate` computes) are,
     index for index and in the same order, the entities the abstract machine plans (`Conv.planList`, which
     `Conv.run_planned` shows a successful `Conv.run` returns) -/
 theorem planSpec_refines (s : State) (hashOf : V1.CertificateContent → Der.Bytes) (now : Int) (st0 : Conv.St) (idx : String → Nat) :
-    ∀ (order upd out : List String), (∀ a ∈ order, Tied s hashOf now st0 idx a) →
+    ∀ (order upd out : List String), (∀ a ∈ order, Tied s hashOf now st0 idx a) → (∀ x ∈ upd, (s.find x).isSome = true) →
       C11.planSpec s defaultStrategy hashOf now order upd = some out →
       Conv.planList st0 (order.map idx) (upd.map idx) = upd.map idx ++ out.map idx
-  | [], upd, out, _, h => by
+  | [], upd, out, _, _, h => by
     simp only [C11.planSpec, Option.some.injEq] at h
     subst h
     simp [Conv.planList]
-  | a :: rest, upd, out, ht, h => by
+  | a :: rest, upd, out, ht, hupd, h => by
     obtain ⟨cfg, e, c, hv, hf, hal, hc, hloc, hpar⟩ := (ht a (by simp)).ex
     have hrest : ∀ b ∈ rest, Tied s hashOf now st0 idx b := fun b hb => ht b (by simp [hb])
     unfold C11.planSpec at h
@@ -35,7 +35,7 @@ theorem planSpec_refines (s : State) (hashOf : V1.CertificateContent → Der.Byt
         unfold planDecision at hd
         simp only [Bool.or_eq_true] at hd
         rcases hd with h1 | h1
-        · exact Or.inl ((hpar upd).mp h1)
+        · exact Or.inl ((hpar upd hupd).mp h1)
         · exact Or.inr (hloc.mp h1)
       simp only [hdc, if_true]
       cases hr : C11.planSpec s defaultStrategy hashOf now rest (upd ++ [cfg.alias_]) with
@@ -43,7 +43,12 @@ theorem planSpec_refines (s : State) (hashOf : V1.CertificateContent → Der.Byt
       | some out' =>
         simp only [hr, Option.map_some, Option.some.injEq] at h
         subst h
-        have ih := planSpec_refines s hashOf now st0 idx rest (upd ++ [cfg.alias_]) out' hrest hr
+        have hupd' : ∀ x ∈ upd ++ [cfg.alias_], (s.find x).isSome = true := by
+          intro x hx
+          rcases List.mem_append.mp hx with h1 | h1
+          · exact hupd x h1
+          · simp only [List.mem_singleton] at h1; rw [h1, hal, hf]; rfl
+        have ih := planSpec_refines s hashOf now st0 idx rest (upd ++ [cfg.alias_]) out' hrest hupd' hr
         rw [hal] at ih
         simp only [List.map_append, List.map_cons, List.map_nil] at ih
         rw [ih]
@@ -55,10 +60,10 @@ theorem planSpec_refines (s : State) (hashOf : V1.CertificateContent → Der.Byt
         unfold planDecision
         simp only [Bool.or_eq_true]
         rcases hx with h1 | h1
-        · exact Or.inl ((hpar upd).mpr h1)
+        · exact Or.inl ((hpar upd hupd).mpr h1)
         · exact Or.inr (hloc.mpr h1)
       simp only [hdc, if_false]
-      exact planSpec_refines s hashOf now st0 idx rest upd out hrest h
+      exact planSpec_refines s hashOf now st0 idx rest upd out hrest hupd h
 
 end Bridge
 
@@ -88,9 +93,49 @@ theorem plan_refinement (s : State) (hashOf : V1.CertificateContent → Der.Byte
     (hrun : ∀ order, Forest.bfs s.ents (s.entities.length + 1) [] (Forest.roots s.ents) = some order → Conv.run st0 (order.map idx) = some (st, planned)) :
     planned = (changes.map (·.alias_)).map idx := by
   obtain ⟨order, ho, hs⟩ := C11.C11_plan_eq_spec s defaultStrategy hashOf now changes hplan
-  have h1 := planSpec_refines s hashOf now st0 idx order [] _ (htied order ho) hs
+  have h1 := planSpec_refines s hashOf now st0 idx order [] _ (htied order ho) (by simp) hs
   have h2 := Conv.run_planned st0 (order.map idx) st planned (hrun order ho)
   rw [h2]
   simpa using h1
+
+end Bridge
+
+namespace Bridge
+open Db
+
+/-- **`Tied` from the abstraction**: an alias is tied to its index as soon as the abstract state holds the abstraction
+    (`absPem`) of its artifact file and of its issuer's, its configuration entry carries the interned hash and the
+    issuer's index, the interning separates the stored hash from the current one, and the index map is injective -/
+theorem tied_of_abs (s : State) (hashOf : V1.CertificateContent → Der.Bytes) (now : Int) (st0 : Conv.St) (idx : String → Nat)
+    (vid : Der.Bytes → Nat) (a : String) (cfg : V1.CertificateContent) (e : Entity) (c : Conv.Cfg)
+    (hv : validateAndMerge s a = .ok cfg) (hf : s.find a = some e) (hal : cfg.alias_ = a) (hc : st0.cfg (idx a) = some c)
+    (hw : WfEnt e) (hp : st0.pem (idx a) = absPem vid e) (hview : c.view = vid (hashOf cfg))
+    (hinjH : ∀ h, e.meta_.lastConfigHash = some h → (vid h = vid (hashOf cfg) ↔ h = hashOf cfg))
+    (hinj : ∀ x y, idx x = idx y → x = y)
+    (hiss : match s.find cfg.issuer with
+            | some ie => c.issuer = some (idx cfg.issuer) ∧ WfEnt ie ∧ st0.pem (idx cfg.issuer) = absPem vid ie
+            | none => c.issuer = none) :
+    Tied s hashOf now st0 idx a := by
+  refine ⟨cfg, e, c, hv, hf, hal, hc, ?_, ?_⟩
+  · apply needsUpdate_default_iff_localReason s e cfg (hashOf cfg) now vid st0 (idx a) c hw hp hview hinjH
+    cases hfi : s.find cfg.issuer with
+    | none => rw [hfi] at hiss; exact hiss
+    | some ie => rw [hfi] at hiss; exact ⟨idx cfg.issuer, hiss.1, hiss.2.1, hiss.2.2⟩
+  · intro upd hupd
+    cases hfi : s.find cfg.issuer with
+    | some ie =>
+      rw [hfi] at hiss
+      exact parent_tied idx hinj cfg.issuer c hiss.1 upd
+    | none =>
+      rw [hfi] at hiss
+      unfold Conv.parentPlanned
+      rw [hiss]
+      simp only [iff_false, Bool.not_eq_true]
+      cases hcon : upd.contains cfg.issuer with
+      | false => rfl
+      | true =>
+        have hm : cfg.issuer ∈ upd := by simpa using hcon
+        have := hupd _ hm
+        rw [hfi] at this; simp at this
 
 end Bridge
